@@ -49,6 +49,7 @@ type dnsStep struct {
 
 type dnsSched struct {
 	Size  int       `json:"size"`
+	Dur0  bool      `json:"dur0"` // NewDNSCache(size, 0, ...): entries expire the instant they are stored
 	Steps []dnsStep `json:"steps"`
 }
 
@@ -155,7 +156,11 @@ func dnsReplay(raw json.RawMessage) hx.Result {
 	if err := json.Unmarshal(raw, &sc); err != nil {
 		panic(err)
 	}
-	cache := fclient.NewDNSCache(sc.Size, time.Hour, []string{"127.0.0.0/8"}, nil)
+	lifetime := time.Hour
+	if sc.Dur0 {
+		lifetime = 0
+	}
+	cache := fclient.NewDNSCache(sc.Size, lifetime, []string{"127.0.0.0/8"}, nil)
 	sim := &dnsSim{procs: map[string]*dnsProc{}}
 	for _, st := range sc.Steps {
 		if st.P != "" && sim.procs[st.P] == nil {
